@@ -14,7 +14,7 @@ RULE = ("seeded configurations of the algorithms named in the statement; every c
         "strictly changes over the run; distinct = distinct configuration descriptors")
 ASSUMPTIONS = ["objective recomputed by independent einsum reconstructions", "well conditioned = cond_2 of every block normal matrix <= 1e6 at both iterates",
                "one-sided slack 1e4*eps*|| |X| + M_abs ||^2", "multiplicative-update and ADMM variants are not in the statement's list and are not asserted"]
-GENS = ["parafac", "nn_parafac_hals", "tucker", "parafac2", "tr_als", "cmtf", "hals_nnls", "cp_regressor", "tucker_regressor"]
+GENS = ["parafac", "nn_parafac_hals", "tucker", "parafac2", "tr_als", "cmtf", "hals_nnls", "cp_regressor", "tucker_regressor", "parafac_masked", "parafac2_warm"]
 MAX_COND = 1e6
 CASE_TIMEOUT = {"quick": 120, "thorough": 120}
 
@@ -228,6 +228,84 @@ def _run_case(case, ctx):
         ctx.sample({"case": desc, "objective": vals}, 2)
         return
 
+    if g == "parafac_masked":
+        # CP-ALS with missing entries is EM: every sweep solves its blocks exactly on the tensor imputed from the previous iterate, so the
+        # misfit on the *observed* entries cannot rise from sweep k to k+1 (k >= 1) -- whether or not errors are tracked
+        from tensorly import decomposition as D
+        data = decomp.make_data(rs, "parafac", "float64")
+        X = data["X"]
+        rank = decomp.pick_rank(rs, "parafac", data)
+        mask = (rs.uniform(size=X.shape) < float(gen.choice(rs, [0.6, 0.8, 0.9]))).astype(float)
+        filler = float(gen.choice(rs, [0.0, 0.0, 5.0])) * float(np.max(np.abs(X)))
+        Xin = X * mask + filler * (1 - mask)          # whatever sits in the missing cells must not matter after the first sweep
+        track = gen.choice(rs, ["tol0", "tol0", "return_errors", "tol"])
+        init = gen.choice(rs, ["svd", "random"])
+        seed = int(rs.randint(0, 2 ** 31 - 1))
+        K = 7
+        desc = {"algo": "parafac", "data": data["cls"], "shape": list(X.shape), "rank": rank, "options": "masked+" + track, "missing": float(1 - mask.mean()), "filler": filler, "init": init}
+        ctx.sample({"case": desc}, 3)
+        kw = {"tol0": {"tol": 0}, "return_errors": {"tol": 0, "return_errors": True}, "tol": {"tol": 1e-100}}[track]
+        its = []
+        for k in range(1, K + 1):
+            out = D.parafac(Xin.copy(), rank, n_iter_max=k, init=init, mask=mask.copy(), random_state=seed, **kw)
+            cp = out[0] if type(out) is tuple else out
+            its.append(decomp.snapshot(cp))
+        Xh, mh = ref.hp(X), ref.hp(mask)
+        vals = []
+        for d in its:
+            M_, Mabs_ = decomp.dense("parafac", d), decomp.dense("parafac", decomp._absify(d))
+            vals.append((ref.frob_sq(mh * (Xh - M_)), ref.frob_sq(mh * (np.abs(Xh) + Mabs_))))
+        conds = [block_cond("parafac", d) for d in its]
+        changed = False
+        for j in range(K - 1):
+            if conds[j] > MAX_COND or conds[j + 1] > MAX_COND:
+                ctx.count("pairs_skipped_illconditioned/%s" % g)
+                continue
+            ctx.count("pairs/%s" % g)
+            (a, sa), (b, sb) = vals[j], vals[j + 1]
+            changed = changed or b < a
+            if not (np.isfinite(a) and np.isfinite(b)) or b > a + slack_c * eps * max(sa, sb):
+                ctx.violation("C07:parafac:descent:masked+%s" % track, "masked CP-ALS: the misfit on the observed entries rose from %.12g to %.12g between sweeps %d and %d (filler %.3g, block cond %.3g / %.3g)" % (
+                    a, b, j + 1, j + 2, filler, conds[j], conds[j + 1]), {"desc": desc, "objective": [v[0] for v in vals]})
+                return
+        if changed:
+            ctx.nontriv(desc)
+        return
+    if g == "parafac2_warm":
+        # PARAFAC2 restarted from a decomposition that carries non-unit weights (e.g. the result of a normalised run): the first sweeps
+        # continue from that tensor, they do not rescale it
+        from tensorly import decomposition as D
+        data = decomp.make_data(rs, "parafac2", "float64", cls=gen.choice(rs, ["lowrank", "generic", "nonneg-lowrank"]))
+        rank = decomp.pick_rank(rs, "parafac2", data)
+        seed = int(rs.randint(0, 2 ** 31 - 1))
+        first = D.parafac2(data["slices"], rank, n_iter_max=int(rs.randint(2, 6)), init="random", normalize_factors=True, random_state=seed, tol=0)
+        w0, fs0, P0 = decomp.snapshot(first)
+        o = {"linesearch": bool(rs.rand() < 0.3), "normalize_factors": bool(rs.rand() < 0.3)}
+        desc = {"algo": "parafac2", "data": data["cls"], "shape": data["shape"], "rank": rank, "options": "warm-with-weights", "opts": o}
+        ctx.sample({"case": desc}, 3)
+        K = 5
+        start = (objective("parafac2", data, (w0, fs0, P0), {}), block_cond("parafac2", (w0, fs0, P0)))
+        vals, conds = [start[0]], [start[1]]
+        for k in range(1, K + 1):
+            r = D.parafac2(data["slices"], rank, n_iter_max=k, init=(w0.copy(), [f.copy() for f in fs0], [p_.copy() for p_ in P0]), random_state=seed, tol=0, **o)
+            d = decomp.snapshot(r)
+            vals.append(objective("parafac2", data, d, {}))
+            conds.append(block_cond("parafac2", d))
+        changed = False
+        for j in range(K):
+            if conds[j] > MAX_COND or conds[j + 1] > MAX_COND:
+                ctx.count("pairs_skipped_illconditioned/%s" % g)
+                continue
+            ctx.count("pairs/%s" % g)
+            (a, sa), (b, sb) = vals[j], vals[j + 1]
+            changed = changed or b < a
+            if not (np.isfinite(a) and np.isfinite(b)) or b > a + slack_c * eps * max(sa, sb):
+                ctx.violation("C07:parafac2:descent:warm-with-weights", "parafac2 restarted from a decomposition with weights %s: objective rose from %.12g (%s) to %.12g after sweep %d" % (
+                    np.round(w0, 3).tolist(), a, "the start" if j == 0 else "sweep %d" % j, b, j + 1), {"desc": desc, "objective": [v[0] for v in vals]})
+                return
+        if changed:
+            ctx.nontriv(desc)
+        return
     # ---- decompositions via prefix runs ---------------------------------------------------------------------------
     algo = g
     data = decomp.make_data(rs, algo, "float64")
